@@ -37,7 +37,8 @@ RULE = ("documents from harness/gen_docs_full.py (executable + type-system, ever
         "case edits or skips a node, or uses a chain/dispatching visitor; distinct = distinct "
         "(text, chain rules); a location-erased stream (every node loc = None as after parse(no_location=True) "
         "or programmatic construction; node identity tracked in a side table) over documents with repeated "
-        "structurally equal members in every kind of child list, every position edited")
+        "structurally equal members in every kind of child list, every position edited; chains of 2-4 "
+        "positions in which one visitor instance stands at several positions, flat and nested ChainedVisitors")
 
 KINDS = ["Document", "OperationDefinition", "FragmentDefinition", "VariableDefinition", "Variable",
          "SelectionSet", "Field", "Argument", "FragmentSpread", "InlineFragment", "IntValue",
@@ -194,6 +195,14 @@ def build_chain(doc, chain, log):
             else:
                 rules.setdefault(key, (act,))
         vs.append((RecD if spec["disp"] else Rec)(i, rules, log))
+    if "positions" in chain:
+        # a chain is a sequence of positions; one instance may stand at several of them
+        seq = [vs[p] for p in chain["positions"]]
+
+        def nested(struct):
+            parts = [seq[x] if isinstance(x, int) else nested(x) for x in struct]
+            return ChainedVisitor(*parts)
+        return nested(chain.get("nest") or list(range(len(seq)))), vs
     if chain["chained"]:
         return ChainedVisitor(*vs), vs
     return vs[0], vs
@@ -244,6 +253,8 @@ def coq_chain(doc, chain):
                 a = {"delete": "Delete", "skip": "Skip"}[act]
             rs.append("(K%s, %s, %s)" % (k, ser.cloc(key[1]), a))
         out.append("(%s, [%s])" % (ser.cbool(spec["disp"]), "; ".join(rs)))
+    if "positions" in chain:
+        out = [out[p] for p in chain["positions"]]     # the model's chain: one entry per position
     return "[" + "; ".join(out) + "]"
 
 
@@ -251,6 +262,23 @@ def coq_chain(doc, chain):
 def keep_chain(disp=False, n=1, chained=None):
     return {"chained": (n > 1) if chained is None else chained, "fresh": {},
             "visitors": [{"disp": disp, "rules": []} for _ in range(n)]}
+
+
+def shared_chain(ninst, positions, nest=None, disp=None):
+    """a chain whose positions are occupied by [ninst] visitor instances, some of them repeatedly"""
+    ch = {"chained": True, "fresh": {}, "positions": list(positions),
+          "visitors": [{"disp": bool(disp and disp[i]), "rules": []} for i in range(ninst)]}
+    if nest is not None:
+        ch["nest"] = nest
+    return ch
+
+
+SHARED_SHAPES = [
+    (1, [0, 0], None), (1, [0, 0, 0], None), (2, [0, 1, 0], None), (2, [1, 0, 1], None),
+    (2, [0, 1, 1, 0], None), (2, [0, 1, 0, 1], None), (3, [0, 1, 2, 0], None), (2, [0, 0, 1], None),
+    (2, [0, 1, 0], [0, [1, 2]]), (2, [0, 1, 0], [[0, 1], 2]), (2, [0, 1, 1, 0], [[0, 1], [2, 3]]),
+    (3, [0, 1, 2], [0, [1, [2]]]), (1, [0, 0], [[0], [1]]), (2, [1, 0, 1], [0, [1], 2]),
+]
 
 
 def positions(text):
@@ -300,6 +328,21 @@ def corpus():
                 ch = keep_chain()
                 ch["visitors"][0]["rules"].append([p[0], p[1], act, 11 + k])
                 out.append(visit_case(t, ch, noloc=True))
+    # seeded C18-c: a chain is a sequence of positions, also when one visitor instance
+    # stands at several of them (recorders around a rewriter, the same rewriter twice)
+    t = "{ foo, bar, baz }"
+    fields = [p for p in positions(t) if p[0] == "Field"]
+    for ninst, pos, nest in SHARED_SHAPES:
+        out.append(visit_case(t, shared_chain(ninst, pos, nest)))
+        for act in ("delete", "replace", "skip"):
+            ch = shared_chain(ninst, pos, nest)
+            ch["visitors"][ninst - 1]["rules"].append([fields[1][0], fields[1][1], act, 7])
+            out.append(visit_case(t, ch))
+    ch = shared_chain(1, [0, 0])      # the same rewriter twice: rewrites its own replacement again
+    ch["visitors"][0]["rules"].append([fields[0][0], fields[0][1], "replace", 3])
+    ch["fresh"][str(700003)] = fields[0][1]
+    ch["visitors"][0]["rules"].append([fields[0][0], [700003, 700004], "replace", 4])
+    out.append(visit_case(t, ch))
     # every gap witness (known findings)
     for t in GAP_WITNESSES.values():
         out.append(visit_case(t, keep_chain()))
@@ -388,6 +431,14 @@ def generate(rng, tier):
                         ch["visitors"][1]["rules"].append(
                             [k, [700000 + s, 700001 + s], rng.choice(["skip", "delete", "replace"]), 900 + s])
             cases.append(visit_case(text, ch, noloc=rng.random() < 0.4))
+        # shared instances / nested chains
+        for _ in range(1 if tier == "quick" else 3):
+            ninst, pos, nest = rng.choice(SHARED_SHAPES)
+            ch = shared_chain(ninst, pos, nest, disp=[rng.random() < 0.4 for _ in range(ninst)])
+            for i in range(ninst):
+                if rng.random() < 0.6:
+                    ch["visitors"][i]["rules"] = _random_rules(rng, ps, rng.randint(1, 2), 500 + 10 * i)
+            cases.append(visit_case(text, ch, noloc=rng.random() < 0.3))
         if "{" in text and rng.random() < 0.5:
             cases.append({"kind": "transform", "which": rng.choice([0, 1, 2]), "text": text})
     kinds = sorted(G.DUP_KINDS)
@@ -400,7 +451,7 @@ def generate(rng, tier):
                 continue
             cases.append(visit_case(text, keep_chain(disp=rng.random() < 0.5), noloc=True))
             for k, (cls, loc) in enumerate(ps):
-                for act in ("delete", "replace", "skip"):
+                for act in (("delete", "replace") if tier == "quick" else ("delete", "replace", "skip")):
                     ch = keep_chain(disp=rng.random() < 0.3, n=rng.choice([1, 1, 2]))
                     ch["visitors"][rng.randrange(len(ch["visitors"]))]["rules"].append([cls, loc, act, 21 + k])
                     cases.append(visit_case(text, ch, noloc=True))
@@ -491,6 +542,10 @@ def _cin(case):
     k = case["kind"]
     if k == "visit":
         doc = parse(case["text"], **G.PARSE_KW)
+        if "positions" in case["chain"]:
+            return "(CVisitPos %s %s %s)" % (
+                coq_chain(doc, case["chain"]),
+                ser.clist(case["chain"]["positions"], ser.cnat), cnode(doc))
         return "(CVisit %s %s)" % (coq_chain(doc, case["chain"]), cnode(doc))
     if k == "transform":
         doc = parse(case["text"], **G.PARSE_KW)
@@ -720,7 +775,12 @@ def extra_evidence(cases, obss):
     for c, o in zip(cases, obss):
         kinds[c["kind"]] += 1
         if c["kind"] == "visit":
-            chains["%s%d" % ("chain" if c["chain"]["chained"] else "plain", len(c["chain"]["visitors"]))] += 1
+            if "positions" in c["chain"]:
+                chains["shared-%d-instances-%d-positions%s" % (
+                    len(c["chain"]["visitors"]), len(c["chain"]["positions"]),
+                    "-nested" if c["chain"].get("nest") else "")] += 1
+            else:
+                chains["%s%d" % ("chain" if c["chain"]["chained"] else "plain", len(c["chain"]["visitors"]))] += 1
             for v in c["chain"]["visitors"]:
                 for r in v["rules"]:
                     acts[r[2]] += 1
